@@ -60,6 +60,9 @@ pub enum Stmt {
     JoinAll(Vec<Task>),
     SelectFirst(Vec<Task>),
     Yield(u8),
+    /// the task's own code panics here (a crash of app code in the middle of a call); only used by the
+    /// task-fault histories of C03, never generated into modelled programs
+    Fault,
     /// `builder.into_future(ctx).await`: a request chain without `then_send`; result becomes acc
     AwaitChain { first: Leaf, stages: Vec<Stage> },
     /// hold a drop-counted token until the task's future is dropped
